@@ -273,7 +273,8 @@ def run(ctx: vlib.Ctx):
             for fname, fd in sd.fields.items():
                 vals = [v for v in H.field_value_pool(fd, api=False) if H.text_safe(v)]
                 k = min(len(vals), 30) if (wide and name in hand_names) else ctx.budget(5, 8)
-                for v in (vals if k >= len(vals) else rng.sample(vals, k)):
+                prio = [v for v in H.priority_values(fd) if H.text_safe(v)]
+                for v in prio + (vals if k >= len(vals) else rng.sample(vals, k)):
                     t = H.doc_one_field(sd, fname, v, nested=rng.random() < 0.3, second_block=rng.random() < 0.15)
                     m = rng.choice(metas)
                     if H.tree_text_safe(t):
